@@ -38,5 +38,9 @@ let () =
     | "utf8" :: cp :: _ ->
       opt (fun (n, buf) -> Printf.sprintf "%s,%s" (pz n) (String.concat "" (Stdlib.List.map (fun b -> let s = pz b in if String.length s = 1 then "0" ^ s else s) buf)))
         (Funcs.codepoint_to_utf8 (z cp) [BinNums.Z0; BinNums.Z0; BinNums.Z0; BinNums.Z0])
+    | "from_index" :: i :: h :: _ ->
+      opt pair (Funcs.position_from_index (z i) (Stdlib.List.map (fun b -> z_of_int (int_of_n b)) (bytes_of_hex h)))
+    | "nonspace_fallback" :: h :: _ ->
+      opt pz (Funcs.get_nonspace_bits_fallback (Stdlib.List.map (fun b -> z_of_int (int_of_n b)) (bytes_of_hex h)))
     | f :: _ -> raise (Bad_op ("t2 " ^ f))
     | [] -> raise (Bad_op "t2"))
